@@ -41,17 +41,38 @@ CLAIM = {
 NAMES = ["", "", "", "x", "y", ".", "_"]
 PATHS = ["a", "b", "c", "a/b", "fmt", "os", "a.b/c", "z", "A", "a-b"]
 TRAIL = ["", "", "", "", "// c", "// d", "/* c */", "//", "/**/", "# h", "//c", "// c // d", "/* c */ // d", "//go:x y"]
+LINEDIR = ["/*line gen.go:6*/", "/*line gen.go:1*/", "/*line a.xgo:3*/", "/*line gen.go:500*/", "/*line a.xgo:12:4*/", "/*line gen.go:2:1*/"]
+LINEDIR1 = ["//line gen.go:1", "//line gen.go:77", "//line a.xgo:5", "//line a.xgo:100000", "//line gen.go:3:9"]   # column 1
 DOCS = ["// doc", "/* doc */", "/* doc\n\t   more */", "# doc", "//"]
 REST = ["", "var x = 1\n", "func f() {\n}\n", "echo 1\n", "type T int\n", "x := 1\nfunc g() {}\n", "// end\n"]
 
 # small-scope alphabet: spec forms chosen to hit ties, duplicates with/without comments, names, quoting
 SMALL = ['"a"', '"a" // c', '"a" //', 'x "a"', '"b"', '. "a"', '"a" /* c */', '`a`', '"a" // d']
 
-# the dimension on which the current tree fails: a one-byte '#' comment on an import line
-# (CommentGroup.Text() indexes c[1]); deterministic set, listed in known_findings.d/C23.txt
-FINDING_SET = [
+# one-byte '#' comments on import lines (repaired in /repo: importComment skips them) stay as regression inputs
+HASH_SET = [
     'import (\n\t"a" #\n\t"a"\n)\n',
     'import (\n\t"b"\n\tx "a"\n\tx "a" #\n)\n',
+    'import (\n\t"a" #\n\t"a" //\n\t"a"\n)\n',
+]
+# line directives: SortImports must work on RAW file lines (PositionFor(pos, false)); the model's line_at IS the raw
+# line (number of line starts <= offset), so a lineAt that follows //line or /*line*/ directives breaks the K-diff, and
+# the direct oracle sees unsorted groups / a LineStart or MergeLine panic.  Directive before the block, between specs
+# (column 1), trailing a spec (/*line f:N*/, /*line f:N:M*/), numbers smaller / larger than the real line and beyond the
+# file's line count, same file / other file.
+LINE_SET = [
+    'package main\n\nimport (\n\t"os" /*line gen.go:6*/\n\t"fmt"\n\t"bytes"\n)\n\nfunc main() {}\n',
+    'package main\n\nimport (\n\t"os" /*line gen.go:100*/\n\t"fmt"\n\t"bytes"\n)\n\nfunc main() {}\n',
+    'import (\n\t"os" /*line a.xgo:1*/\n\t"fmt"\n\t"bytes"\n)\n',
+    'import (\n\t"os" /*line a.xgo:9:3*/\n\t"fmt"\n\t"fmt"\n\t"bytes"\n)\n',
+    '//line gen.go:50\nimport (\n\t"c"\n\t"b"\n\t"a"\n)\n',
+    '//line a.xgo:1000\nimport (\n\t"c"\n\t"c"\n\t"a"\n)\nvar x = 1\n',
+    'import (\n\t"c"\n//line gen.go:1\n\t"b"\n\t"a"\n)\n',
+    'import (\n\t"c"\n//line gen.go:40\n\t"b"\n\t"b"\n\n\t"z"\n\t"a"\n)\n',
+    'import (\n\t"c"\n\t/*line gen.go:7*/ "b"\n\t"a"\n)\n',
+    'import (\n\t"c" /*line gen.go:2*/\n\n\t"b" /*line gen.go:3*/\n\t"a"\n)\n',
+    'import (\n\t"c" /*line gen.go:3*/\n\t"c" /*line gen.go:30*/\n\t"a"\n\t"a"\n)\nimport (\n\t"e"\n\t"d"\n)\n',
+    'import "x" /*line gen.go:90*/\nimport (\n\t"c"\n\t"b"\n\t"a"\n)\n',
 ]
 # two specs on one line: sortSpecs merges one line per removed duplicate, which can swallow the blank
 # line after the run and glue two groups together, or panic on the last line of the file (see
@@ -89,6 +110,8 @@ def gen_spec(rng, small_paths):
     q = '`%s`' % path if rng.below(8) == 0 else '"%s"' % path
     s = (name + " " if name else "") + q
     t = rng.choice(TRAIL)
+    if rng.below(14) == 0:
+        t = rng.choice(LINEDIR)
     if t:
         s += " " + t
     return s
@@ -109,6 +132,8 @@ def gen_block(rng):
             lines.append("")
         elif k == 2:
             lines.append("\t" + rng.choice(DOCS))
+        elif k == 3 and rng.below(3) == 0:
+            lines.append(rng.choice(LINEDIR1))
     return "import (\n" + "\n".join(lines) + ("\n" if lines else "") + ")\n"
 
 
@@ -116,6 +141,8 @@ def gen_file(rng):
     s = ""
     if rng.below(4) == 0:
         s += rng.choice(["package main\n\n", "package p\n", "// hdr\npackage main\n"])
+    if rng.below(12) == 0:
+        s += rng.choice(LINEDIR1) + "\n"
     for _ in range(rng.choice([1, 1, 1, 2, 3])):
         k = rng.below(6)
         if k == 0:
@@ -234,8 +261,10 @@ def run(ctx):
             origin[b] = tag
             cases.append(b)
 
-    for s in FINDING_SET:
-        add(s, "finding-set")
+    for s in HASH_SET:
+        add(s, "hash-comment-set")
+    for s in LINE_SET:
+        add(s, "line-directive-set")
     for s in SAMELINE_SET:
         add(s, "sameline-set")
     for s in FIXED_SET:
@@ -352,22 +381,22 @@ def run(ctx):
     pick = [i for i in sel if origin[cases[i]] == "file"][:3]
     ctx.cover(evaluations=len(cases), distinct_nontrivial=nontriv,
               samples=[{"src": cases[i].decode("utf-8", "replace")[:400], "after": F[i][3][:300], "fmt_groups": F[i][5][:200]} for i in pick],
-              rule="deterministic: %d finding-set + %d fixed-set + every block of <=%d specs over %d spec forms x {newline, blank line} "
+              rule="deterministic: %d one-byte-'#'-comment + %d line-directive + %d fixed-set + every block of <=%d specs over %d spec forms x {newline, blank line} "
                    "separators (%d inputs); seeded: files with optional package clause, 1-3 import declarations (blocks of 0-30 specs, "
                    "single imports, empty blocks), named/dot/blank imports, raw-string paths, duplicates, trailing line/block/'#' comments "
                    "incl. empty ones, doc comment lines, blank-line runs, trailing code; byte-mutated files "
-                   "(mostly unparsable: only 'fails without panic' is checked). NOT generated in the seeded part: one-byte '#' comments "
-                   "(deterministic finding-set) and two specs on one line (deterministic sameline-set of %d inputs; the line-table model "
+                   "(mostly unparsable: only 'fails without panic' is checked); //line and /*line*/ directives before, inside and trailing "
+                   "specs of the blocks (the model's line_at is the RAW line). NOT generated in the seeded part: two specs on one line (deterministic sameline-set of %d inputs; the line-table model "
                    "reproduces them, the direct oracle judges them). %d of the parsable inputs have key-equal specs differing in has-a-comment: compared on the "
                    "tie-insensitive projection (sequence of distinct (name,path)). non-trivial = distinct parsable file with >=2 specs in "
-                   "blocks whose spec order/positions SortImports changed" % (len(FINDING_SET), len(FIXED_SET), N, len(SMALL), n_ex, len(SAMELINE_SET), n_mixed),
+                   "blocks whose spec order/positions SortImports changed" % (len(HASH_SET), len(LINE_SET), len(FIXED_SET), N, len(SMALL), n_ex, len(SAMELINE_SET), n_mixed),
               origin_histogram=orig_h, status_histogram=status_h,
               shape_histogram=dict(sorted(shapes.items(), key=lambda kv: -kv[1])[:40]), model_compared=len(sel),
               output_splits_a_run_further=n_split, run_boundaries_changed_by_line_merges=n_dynamic,
               line_table_not_compared_because_of_key_ties=n_ties)
     ctx.assume("sort.Slice returns a permutation of its argument sorted for the less closure (any such function: parameter of the theorems); "
                "the executable model uses a stable insertion sort and the differential run compares tie-insensitive observables",
-               "token.File.MergeLine only renumbers the lines after the merged one (line numbers are inputs of the model)",
+               "lineAt(fset, p) is the raw line of p = number of line starts <= offset(p) (PositionFor(p, false)): line directives do not count",
                "importPath/importName/importComment values are read from the parsed AST by the harness (strconv.Unquote, CommentGroup.Text are not modelled)")
     ctx.trust("modelled, not verified: ast/import.go SortImports, sortSpecs (sort key, dedup, position reassignment), collapse; "
               "format.Source = ParseFile + SortImports + printer: parser and printer are not modelled (their effect on import groups is "
